@@ -327,6 +327,16 @@ class LeRemoteFeatures(Proc):
         await t('Connection.get_remote_le_features', env.conn.get_remote_le_features())
 
 
+class LeL2capUpdateParameters(Proc):
+    """The peripheral asks for new connection parameters over L2CAP signalling and awaits the answer."""
+
+    name = 'le_l2cap_update_parameters'
+    waiting = 1
+
+    async def run(self, env, t):
+        await t('Connection.update_parameters(use_l2cap)', env.conn.update_parameters(30.0, 50.0, 0, 4000.0, use_l2cap=True))
+
+
 class LeDisconnect(Proc):
     name = 'le_disconnect'
 
@@ -485,6 +495,17 @@ class ClassicRemoteName(Proc):
         await t('Connection.request_remote_name', env.conn.request_remote_name())
 
 
+class ClassicSwitchRole(Proc):
+    name = 'classic_switch_role'
+    transport = 'classic'
+
+    async def run(self, env, t):
+        from bumble import hci
+
+        await t('Connection.switch_role', env.conn.switch_role(hci.Role.PERIPHERAL))
+        assert env.conn.role == hci.Role.PERIPHERAL
+
+
 class ClassicDisconnect(Proc):
     name = 'classic_disconnect'
     transport = 'classic'
@@ -498,7 +519,7 @@ PROC_CLASSES = [
     GattRead, GattLongRead, GattWrite, GattDiscover, GattSubscribe, GattIndicate,
     PairLegacyJW, PairScJW, PairScPasskey,
     CocConnect, CocDisconnect, CocDrain,
-    HciCommand, LeRemoteFeatures, LeDisconnect, LeDisconnectPeripheral,
-    ClassicConnect, ClassicChanDisconnect, Rfcomm, RfcommShutdown, Sdp, Avdtp, ClassicRemoteName, ClassicDisconnect,
+    HciCommand, LeRemoteFeatures, LeL2capUpdateParameters, LeDisconnect, LeDisconnectPeripheral,
+    ClassicConnect, ClassicChanDisconnect, Rfcomm, RfcommShutdown, Sdp, Avdtp, ClassicRemoteName, ClassicSwitchRole, ClassicDisconnect,
 ]
 PROCS = {c.name: c for c in PROC_CLASSES}
